@@ -561,6 +561,13 @@ func (i *Install) availableName() error {
 	rel := h[0]
 
 	if st := rel.Info.Status; i.Replace && (st == release.StatusUninstalled || st == release.StatusFailed) {
+		// A failed last revision (e.g. a failed upgrade) does not free the
+		// name while an earlier revision is still deployed.
+		for _, r := range h[1:] {
+			if r.Info.Status == release.StatusDeployed {
+				return errors.New("cannot reuse a name that is still in use")
+			}
+		}
 		return nil
 	}
 	return errors.New("cannot reuse a name that is still in use")
@@ -606,19 +613,6 @@ func (i *Install) replaceRelease(rel *release.Release) error {
 
 	// Update version to the next available
 	rel.Version = last.Version + 1
-
-	// The last revision is not necessarily the deployed one (e.g. a failed
-	// upgrade leaves the revision before it deployed). Supersede any earlier
-	// revision that is still marked deployed, so the history never ends up
-	// with two deployed revisions.
-	for _, r := range hist[1:] {
-		if r.Info.Status == release.StatusDeployed {
-			r.SetStatus(release.StatusSuperseded, "superseded by new release")
-			if err := i.recordRelease(r); err != nil {
-				return err
-			}
-		}
-	}
 
 	// Do not change the status of a failed release.
 	if last.Info.Status == release.StatusFailed {
